@@ -114,6 +114,24 @@ func VerifC12GenerateSchema() {
 		p.Objects.Iterate(func(pn string, _ ast.Object) { sameNameForeign = v.Or(sameNameForeign, qn == pn) })
 	})
 	v.Excuse("foreign-object-same-name", sameNameForeign)
+	// every reference of the schema's objects denotes, in the document, the object it denotes in the IR
+	describe := func(o ast.Object) Definition {
+		fresh := Schema{ReferenceFormatter: jenny.ReferenceFormatter}
+		fresh.foreignObjects = orderedmap.New[string, ast.Object]()
+		fresh.isForeignReference = func(ast.RefType) bool { return false }
+		return fresh.objectToDefinition(o)
+	}
+	p.Objects.Iterate(func(_ string, o ast.Object) {
+		for _, pos := range symir.Collect(o.Type, "", nil) {
+			if !strings.HasSuffix(pos.Where, ":ref") {
+				continue
+			}
+			target, found := schemas.LocateObject(pos.Pkg, pos.Name)
+			if found && defs.Has(pos.Name) {
+				v.Assert(v.DeepEqualNilEmpty(defs.Get(pos.Name), describe(target)), "C12: a $ref of the emitted JSON Schema points to the definition of a different object")
+			}
+		}
+	})
 	p.Objects.Iterate(func(name string, o ast.Object) {
 		v.Assert(defs.Has(name), "C12: an object of the schema is missing from the definitions")
 		if !defs.Has(name) {
